@@ -92,7 +92,8 @@ class Unit:
     stub `self` (each asserting its own `requires` as a `pre` obligation and assuming its `ensures`)."""
 
     def __init__(self, relpath, qualname, harness, globs=None, loops=None, super_obj=None, props=(), assumptions=(),
-                 abstractions=(), name=None, replay=None, rewrite_literals=True, max_paths=2000, callee_contracts=(), literals=None):
+                 abstractions=(), name=None, replay=None, rewrite_literals=True, max_paths=2000, callee_contracts=(), literals=None, instances=None):
+        self.instances = instances          # callable -> [(label, harness)]: the same contract on small CONCRETE inputs (loops run natively, ground obligations)
         self.literals = literals
         self.relpath, self.qualname, self.harness = relpath, qualname, harness
         self.globs, self.loops, self.super_obj = globs or {}, loops or {}, super_obj
@@ -161,6 +162,42 @@ class Unit:
                 except Exception as e:          # replay machinery failure is never a verdict
                     r["replay"] = dict(ok=False, error="%s: %s" % (type(e).__name__, e))
             out.append(r)
+        # concrete instances of the same contract (bounded, never counted as proved): run in the thorough tier, and whenever a property clause of
+        # this unit is not discharged - a ground counterexample (instance + column values) decides what the quantified query left open
+        open_prop = [r for r in out if r.get("prop") and r["status"] != "discharged" and not (r.get("replay") or {}).get("ok")]
+        if self.instances is not None and (cross or open_prop):
+            inst_res = dict(checked=0, failed=0, errors=[], labels=[])
+            try:
+                insts = list(self.instances())
+            except Exception as e:
+                insts, inst_res["errors"] = [], ["%s: %s" % (type(e).__name__, e)]
+            for label, hc in insts:
+                try:
+                    iobls, _, _, _ = explore(lambda c, hc=hc: hc(c, f), max_paths=self.max_paths)
+                except BaseException as e:          # instance machinery failure is never a verdict
+                    inst_res["errors"].append("%s: %s: %s" % (label, type(e).__name__, str(e)[:200]))
+                    continue
+                inst_res["labels"].append(label)
+                idone = set()
+                for o in iobls:
+                    if o.kind == "cover" or not o.prop:
+                        continue
+                    key = (o.name, o.goal.get_id())
+                    if key in idone:
+                        continue
+                    idone.add(key)
+                    r = smt.discharge_one(o, cross=False)
+                    mo = r.pop("_model_obj", None)
+                    inst_res["checked"] += 1
+                    if r["status"] == "failed":
+                        inst_res["failed"] += 1
+                        r["name"] = "%s::%s" % (self.name, o.name)
+                        r["base"] = o.name
+                        r["replay"] = dict(ok=True, kind="concrete instance of the contract: the real function body run natively (no loop cutting) on this input; "
+                                                         "the values below are an assignment of the columns / inputs that satisfies every hypothesis and falsifies the clause",
+                                           instance=label, values=r.get("model"))
+                        out.append(r)
+            res["concrete_instances"] = inst_res
         res["obligations"] = out
         res["wall_s"] = round(time.time() - t0, 3)
         res["solver_time_s"] = round(sum(r["time_s"] for r in out), 3)
